@@ -55,7 +55,7 @@ FLOORS = {
                  "n_boundary_kinds": 14, "n_reject_kinds": 3},
 }
 SHARD_TIMEOUT = {"quick": 900, "thorough": 3000}
-N_SAMPLES = 5
+N_SAMPLES = 8
 
 N_CASES = {"quick": {"bus": 2000, "bus-subword": 250, "bus-io-odd": 250, "bus-p2p": 150, "loc": 1800, "loc-edge": 600, "platform": 1100, "platform-override": 200, "soc": 6},
            "thorough": {"bus": 27000, "bus-subword": 3000, "bus-io-odd": 3000, "bus-p2p": 1500, "loc": 22000, "loc-edge": 8000, "platform": 14000, "platform-override": 2000, "soc": 48}}
@@ -80,16 +80,67 @@ def plan(tier, seed):
 CASE_WALL_CAP = 60
 
 
+class AnchorCov:
+    """Lines of the anchor functions that the workload really executed (sys.monitoring, each line reports once)."""
+    TOOL = 3
+
+    def __init__(self, M):
+        import sys
+        S, GP = M["S"], M["GP"]
+        fns = [S.SoCBusHandler.add_region, S.SoCBusHandler.alloc_region, S.SoCBusHandler.check_regions_overlap,
+               S.SoCBusHandler.check_region_is_in, S.SoCBusHandler.check_region_is_io, S.SoCBusHandler.add_slave,
+               S.SoCBusHandler.add_master, S.SoCBusHandler.do_finalize, getattr(S.SoCRegion.decoder, "__wrapped__", S.SoCRegion.decoder),
+               S.SoCLocHandler.add, S.SoCLocHandler.alloc, S.SoCCSRHandler.address_map, S.SoCIRQHandler.add,
+               GP.ConstraintManager.request, GP.ConstraintManager.request_all, GP.ConstraintManager.request_remaining,
+               GP.ConstraintManager.lookup_request, GP.ConstraintManager.get_sig_constraints, GP._lookup]
+        self.hits = set()
+        self.codes = {}
+        self.mon = getattr(sys, "monitoring", None)
+        if self.mon is None:
+            return
+        for f in fns:
+            code = getattr(f, "__code__", None)
+            if code is not None:
+                self.codes[code] = "%s:%s" % (code.co_filename.split("/")[-1], code.co_qualname)
+        try:
+            self.mon.use_tool_id(self.TOOL, "verif-c13")
+        except ValueError:
+            self.mon = None
+            return
+        self.mon.register_callback(self.TOOL, self.mon.events.LINE, self._line)
+        for code in self.codes:
+            self.mon.set_local_events(self.TOOL, code, self.mon.events.LINE)
+
+    def _line(self, code, line):
+        n = self.codes.get(code)
+        if n is not None:
+            self.hits.add("%s:%d" % (n, line))
+        return self.mon.DISABLE
+
+    def report(self, col):
+        if self.mon is None:
+            return
+        for h in self.hits:
+            col.cov("anchor_lines_hit", h)
+        for code, n in self.codes.items():
+            for _, _, ln in code.co_lines():
+                if ln is not None and ln != code.co_firstlineno:
+                    col.cov("anchor_lines_executable", "%s:%d" % (n, ln))
+        self.mon.free_tool_id(self.TOOL)
+
+
 def _on_alarm(signum, frame):
     raise HarnessTimeout()
 
 
 def run_shard(shard):
     import signal
-    col = Collector(shard["cls"], max_samples=3)
+    col = Collector(shard["cls"], max_samples=8)
     signal.signal(signal.SIGALRM, _on_alarm)
     with contextlib.redirect_stdout(io.StringIO()):
         M = mon.build()
+        cov = AnchorCov(M)
+        col.sampled = set()
         for case in shard["cases"]:
             col.cls = case.get("cls", shard["cls"])
             signal.setitimer(signal.ITIMER_REAL, CASE_WALL_CAP)
@@ -101,6 +152,7 @@ def run_shard(shard):
                 signal.setitimer(signal.ITIMER_REAL, 0)
             env.restore_stderr()
             _flush_counters(col)
+        cov.report(col)
     return col.result()
 
 
@@ -217,6 +269,9 @@ class History:
         return True, r
 
     def sample(self, extra=None):
+        if self.case["cls"] in self.col.sampled:
+            return None
+        self.col.sampled.add(self.case["cls"])
         s = {"cls": self.case["cls"], "seed": self.case["seed"], "params": self.params, "accepted": self.accepted, "rejected": self.rejected,
              "history": self.ops[:14]}
         if extra:
